@@ -808,6 +808,9 @@ def run(ctx):
             texts.append(replay_text(c, o["what"]))
         ctx.violation("oracle", "# C17 oracle failures (replay: python3 check.py C17 --replay <this file>)\n" + "\n".join(texts))
     ctx.notes["oracle_failures"] = len(new)
+    # default count pattern on namespaced source elements (props/C17_ns.py; added after seed C17_d)
+    from props import C17_ns
+    C17_ns.run_part(ctx)
     return ctx.finish(LEVEL, explanation="theorems over the Gallina model of xsl:number counting (zipper walks + counters table) and formatting + "
                       "correspondence of the extracted model with whole transformations of the rebuilt library + independent Python / count() oracle and decoder")
 
